@@ -206,6 +206,11 @@ def _render_bindings(
                 rendered.append(item.rebuild(indent=indent, inline=inline))
             continue
         rendered.append(value.rebuild(indent=indent, inline=inline))
+    # Callers join the items with a newline: a blank line kept after an item must
+    # not become two when another item follows (a binding appended by an edit).
+    for index in range(len(rendered) - 1):
+        if rendered[index].endswith("\n\n"):
+            rendered[index] = rendered[index][:-1]
     return rendered
 
 
